@@ -299,10 +299,22 @@ def sortPairsDesc : List (List Key × Bool × VE) → List (List Key × Bool × 
   | [] => []
   | x :: xs => insertPair x (sortPairsDesc xs)
 
+def preCheck (self : Tree) : List (List Key × Bool × VE) → Option Err
+  | [] => none
+  | (path, _, _) :: rest =>
+    match self.query path.dropLast with
+    | some (.node pm _) => if pm.sealed then some .perm else preCheck self rest
+    | _ => if self.queryIdxErr path.dropLast then some .index else preCheck self rest
+
 def doRebind (cfg : Cfg) (f : Forest) (notifyOn : Bool) (t : Nat) (m : Meta)
     (pairs : List (List Key × Bool × VE)) (skip : Option Bool) (raiseOnNoChange : Bool) : Res :=
   if pairs.isEmpty && raiseOnNoChange then ⟨f, .err .value⟩ else
   if isObjKind m.kind && m.sealed then ⟨f, .err .perm⟩ else
+  -- `_ensure_rebind_targets_writable` (base.py): a batch is refused as a whole when the parent
+  -- node of any path is sealed (paths whose parent does not exist are left to the loop)
+  match (f.find? t).bind (fun self => preCheck self pairs) with
+  | some e => ⟨f, .err e⟩
+  | none =>
   let pairs := if m.kind = .list then sortPairsDesc pairs else pairs
   match rebindLoop cfg t f pairs [] with
   | (f', _, some e) => ⟨f', .err e⟩
